@@ -241,7 +241,24 @@ impl<'a> YamlEmitter<'a> {
                 Ok(())
             }
             Yaml::Value(Scalar::Integer(v)) => Ok(write!(self.writer, "{v}")?),
-            Yaml::Value(Scalar::FloatingPoint(ref v)) => Ok(write!(self.writer, "{v}")?),
+            Yaml::Value(Scalar::FloatingPoint(ref v)) => {
+                // Use the spellings that load back as a float of the same value.
+                let v = v.into_inner();
+                if v.is_nan() {
+                    self.writer.write_str(".nan")?;
+                } else if v.is_infinite() {
+                    self.writer
+                        .write_str(if v > 0.0 { ".inf" } else { "-.inf" })?;
+                } else {
+                    let repr = v.to_string();
+                    self.writer.write_str(&repr)?;
+                    // `1.0` is displayed as `1`, which would load back as an integer.
+                    if !repr.contains('.') {
+                        self.writer.write_str(".0")?;
+                    }
+                }
+                Ok(())
+            }
             Yaml::Value(Scalar::Null) | Yaml::BadValue => Ok(write!(self.writer, "~")?),
             Yaml::Representation(ref v, style, ref tag) => {
                 if let Some(Tag {
